@@ -27,8 +27,10 @@ func Spec(prop, tier string) *core.CheckSpec {
 			Property: "C09", Level: "exploration",
 			Rule: "seeded coroutine scripts x seeded hand-off schedules; a run is non-trivial if the scheduler took at least one non-default decision (another enabled task than the running one was chosen); distinct = hash(script text, decision vector)",
 			Batches: []core.Batch{
-				{Engine: "corofree", Mode: "std", Runs: n(40000, 2000000), Millis: ms(25000, 600000)},
-				{Engine: "corofree", Mode: "std", Variant: "race", Runs: n(6000, 400000), Millis: ms(25000, 600000), HangS: 120},
+				{Engine: "corofree", Mode: "std", Runs: n(40000, 2000000), Millis: ms(20000, 600000)},
+				{Engine: "corofree", Mode: "std", Variant: "race", Runs: n(6000, 400000), Millis: ms(20000, 600000), HangS: 120},
+				{Engine: "model", Mode: "coro", Runs: n(30000, 3000000), Millis: ms(20000, 600000)},
+				{Engine: "model", Mode: "coro", Variant: "race", Runs: n(4000, 400000), Millis: ms(15000, 400000), HangS: 120},
 			},
 			Real:   realAll,
 			Stub:   []string{"goroutine scheduling decisions (controlled baton-passing scheduler driven by the tape)", "host callbacks emit/probe"},
@@ -58,6 +60,28 @@ func Spec(prop, tier string) *core.CheckSpec {
 			Real:   realAll,
 			Stub:   []string{"goroutine scheduling decisions (controlled scheduler)", "host callbacks emit/probe"},
 			Assume: []string{"heap bound M3 uses runtime.MemStats.TotalAlloc of the worker process: 64*M + 256 MiB per run"},
+		}
+	case "C10":
+		return &core.CheckSpec{
+			Property: "C10", Level: "exploration",
+			Rule: "seeded SimLua programs nesting blocks, loops, functions, pcall/xpcall and coroutines with <close> declarations at arbitrary positions; exits = falling off, break, goto out/continue, return (incl. tail position), runtime errors, error(v), lua-error injected at the k-th probe invocation (fault plan from the tape), coroutine.close at a suspension point, handlers that raise or call functions; oracle = event log and outcome equal to the independent reference interpreter (close-stack model: exactly once, reverse order, in-flight error as 2nd argument, before the receiver runs). non-trivial = a probe fault fired, an error was raised or a non-default scheduling decision was taken; distinct = hash(program, fault plan, schedule)",
+			Batches: []core.Batch{
+				{Engine: "model", Mode: "close", Runs: n(60000, 6000000), Millis: ms(40000, 900000)},
+			},
+			Real:   realAll,
+			Stub:   []string{"goroutine scheduling decisions (controlled scheduler)", "host callbacks emit/probe (probe raises the planned error values)"},
+			Assume: []string{"the reference interpreter (sim/engines/simmodel.go) is a faithful reading of the Lua 5.4 manual for the SimLua subset; message texts generated by golua are not compared, only chunk:line prefixes"},
+		}
+	case "C11":
+		return &core.CheckSpec{
+			Property: "C11", Level: "exploration",
+			Rule: "seeded SimLua programs with error sites of every kind (error(v) with values of every type, level 0/1, runtime errors, errors of library functions, lua-error injected at the k-th probe invocation) under every nesting of pcall/xpcall/coroutine.resume/wrap and to-be-closed scopes; oracle = event log and outcome equal to the reference interpreter (catch-site model: nearest boundary, value identity, chunk:line prefix, handler once at the point of the error and before unwound __close handlers); the program keeps running after every caught error and the rest of its log must match too (post-fault consistency). non-trivial as for C10",
+			Batches: []core.Batch{
+				{Engine: "model", Mode: "err", Runs: n(60000, 6000000), Millis: ms(40000, 900000)},
+			},
+			Real:   realAll,
+			Stub:   []string{"goroutine scheduling decisions (controlled scheduler)", "host callbacks emit/probe"},
+			Assume: []string{"reference interpreter as for C10; positions of errors raised by host functions in tail-call position are not specified and not generated"},
 		}
 	case "C07":
 		return &core.CheckSpec{
